@@ -49,6 +49,13 @@ def run(chk, tier, scale=1.0):
     opts = {"weights": {"timeout": 8, "hurry": 5, "reply": 22, "password": 14, "stray": 3}, "reply_kinds": ["OK", "OKacct", "NO", "AGAIN", "MORE", "junk", "OKspace"]}
     jobs = pcommon.hist_jobs(b, n, chk.seed, PROPS, opts=opts, tag="c02", want_class=False)
     prun.fold(chk, "C02", vcommon.pmap(prun.hist_worker, jobs, chunksize=4))
+    # service tables around the width of the per-client masks (the awaiting mask must not lose or alias a service)
+    import build as buildmod
+    from checks import c06
+    bplain = buildmod.build_daemon(buildmod.fresh_dir("c02p-" + tier), "plain")
+    mjobs = [dict(build=(bplain if k % 2 else b), n=n_, seed=chk.seed * 100 + k, mixed=(k % 4 < 2), props=PROPS)
+             for k, n_ in enumerate([31, 32, 32, 31, 33, 40, 33, 34] * (1 if tier == "quick" else 6))]
+    prun.fold(chk, "C02", vcommon.pmap(c06._many_worker, mjobs))
     chk.rule = ("all 120 arrival orders of {host result, ident, nick, user info, password} x 7 service tables (each protocol alone, mixed, two login services, none) "
                 "x reply policies (immediately OK / OK+account, at the end, reversed, never, NO first, mixed kinds) x request timeout fired through the guarded hook before "
                 "position 0..5 or never x hurry-up position x password mode strings (+x, +!, -, +x!, none, a second password); plus random multi-client histories; "
